@@ -150,7 +150,11 @@ class Prover:
             r = f.result()
             ctx.log("apalache %s %s: %s in %.0fs%s" % (tag, ",".join(invs), r["status"], r["wall"],
                                                       (" cex=%s" % r["cex"]) if r["cex"] else ""))
-            if r["status"] == "violation" and len(invs) > 1:
+            if r["status"] == "violation" and len(invs) > 1 and ctx.violations:
+                # the Go grid already showed a (non-recorded) violation on the real functions: do not spend the time to
+                # attribute the refuted batch to single obligations
+                out[tag] = {"status": "refuted-batch", "invs": invs, "wall": r["wall"], "cmd": r["cmd"], "cex": r["cex"]}
+            elif r["status"] == "violation" and len(invs) > 1:
                 for inv in invs:
                     d = ctx.stage_specs(files)
                     retry[self.ex.submit(apalache, ctx, d, [inv])] = tag + ":" + inv
